@@ -67,6 +67,13 @@ class SpliceInterp:
                 isinstance(x, ast.Attribute) and x.attr == "DAG_PREFIX" for x in ast.walk(g.node)
             ) and len(g.node.args.args) == 1:
                 self.prefixers.add(g.name)
+        if not self.prefixers:
+            # the same function hoisted to module level (it captured nothing): one parameter, reads the prefix stack, called in the block
+            called = {dotted(x.func) for x in ast.walk(self.block) if isinstance(x, ast.Call)}
+            for g in ctx.P.funcs.values():
+                if g.parent is None and g.cls is None and g.module is call.module and len(g.node.args.args) == 1 and g.name in called and any(
+                        isinstance(x, ast.Attribute) and x.attr == "DAG_PREFIX" for x in ast.walk(g.node)):
+                    self.prefixers.add(g.name)
         if len(self.prefixers) != 1:
             raise Undecided(f"prefixer function: expected one nested function reading the prefix stack, found {sorted(self.prefixers)}")
         self.nested = {g.name: g for g in ctx.P.funcs.values() if g.parent is call and g.name not in self.prefixers}
